@@ -53,13 +53,37 @@ def synth(seq):
     if all(per):
         anchored = [d[c].startswith("^") for c in chain]
         idx = sorted(range(len(chain)), key=lambda i: (not anchored[i], -i if anchored[i] else i))
+        # (a) minimal models: as few of the chain's words as still satisfy every regex of the chain ("NVIDIA SN5400" rather than a string
+        #     that also carries the first alternative of every ancestor regex, which would make sibling families true as well)
+        minimal = []
+        for combo in itertools.islice(itertools.product(*[p[:4] for p in per]), 60):
+            n = len(combo)
+            subsets = sorted((m for m in range(1, 2 ** n)), key=lambda m: (sum(len(combo[i]) for i in range(n) if m >> i & 1), m))
+            for m in subsets:
+                words = [combo[i] for i in range(n) if m >> i & 1]
+                hit = None
+                for cand in ("".join(words), " ".join(w.strip() for w in words)):
+                    if all(re.search(d[c], cand) for c in chain):
+                        hit = cand
+                        break
+                if hit is not None:
+                    if hit not in minimal:
+                        minimal.append(hit)
+                    break
+            if len(minimal) >= 2:
+                break
+        # (b) full models: every regex of the chain contributes its sample
+        full = []
         for combo in itertools.islice(itertools.product(*[p[:4] for p in per]), 400):
             for cand in ("".join(combo), "".join(combo[i] for i in idx), " ".join(combo)):
-                if all(re.search(d[c], cand) for c in chain) and cand not in out:
-                    out.append(cand)
-            if len(out) >= 3:
+                if all(re.search(d[c], cand) for c in chain) and cand not in full:
+                    full.append(cand)
+            if len(full) >= 3:
                 break
-    _SYN[seq] = out[:3]
+        for cand in minimal[:2] + full:
+            if cand not in out:
+                out.append(cand)
+    _SYN[seq] = out[:4]
     return _SYN[seq]
 
 
